@@ -210,3 +210,115 @@ for _q, _flag, _lab, _dom in (('"', 'inString', 'string literal', ['""""', '"""y
         cases=[Case(f'the opening quote of a {_lab} consumes exactly that one character and emits nothing, whatever follows it (the characters after it are the literal\'s own)',
                     lambda *a: True, _open_step(_q, _flag))],
         call=_step_call, native_call=_step_native, cross_key=_key, timeout_ms=20000))
+
+
+# ---- P3: outside every mode - operators, parentheses, separators and ordinary characters ----------------------------------------------------------
+# One step of the scan loop on a SYMBOLIC (formula, offset, pending token) whose current character is fixed per unit: what is emitted,
+# what becomes of the pending token, how far the scan advances.  "One token per written construct": a pending operand is flushed once,
+# the construct gets exactly one token, nothing else is emitted.
+def _suffix(tok, ch):
+    return Sym(z3.SuffixOf(z3.StringVal(ch), lift(tok).t), 'bool') if is_sym(tok) else tok.endswith(ch)
+
+
+def _normal_req(chars, nxt_not=(), sci_guard=False):
+    def req(formula, offset, token, *flags):
+        ch, nx = _char(formula, offset), _next(formula, offset)
+        c = [offset >= 0, offset < S.length(formula), Or(*[spec.eq(ch, x) for x in chars])]
+        c += [Not(spec.eq(nx, x)) for x in nxt_not]
+        if sci_guard:                      # "1E" + sign continues a number in scientific notation: not an operator
+            c += [Not(_suffix(token, 'E')), Not(_suffix(token, 'e'))]
+        return And(*c)
+    return req
+
+
+def _flush(o, token):
+    """the emitted list starts with the pending token as ONE operand iff it is non-empty; returns (constraint, rest of the list)"""
+    em = o['emitted']
+    nonempty = S.length(token) > 0
+    return em, nonempty
+
+
+def _op_step(width, ttype, subtype=None, value=None):
+    def ens(formula, offset, token, s, p, r, e, out):
+        if out.kind != 'ret':
+            return False
+        o = out.value
+        em, nonempty = _flush(o, token)
+        ch = _char(formula, offset)
+        text = value if value is not None else (S.concat(ch, _next(formula, offset)) if width == 2 else ch)
+        conj = [spec.eq(o['offset'], offset + width), spec.eq(o['token'], '')]
+        if len(em) == 2:
+            conj += [nonempty, spec.eq(em[0][0], token), em[0][1] == 'operand', spec.eq(em[1][0], text), em[1][1] == ttype]
+            if subtype is not None:
+                conj.append(em[1][2] == subtype)
+        elif len(em) == 1:
+            conj += [Not(nonempty), spec.eq(em[0][0], text), em[0][1] == ttype]
+            if subtype is not None:
+                conj.append(em[0][2] == subtype)
+        else:
+            return False
+        return And(*conj)
+    return ens
+
+
+_FLAGS = [('inString', Const(False, '-')), ('inPath', Const(False, '-')), ('inRange', Const(False, '-')), ('inError', Const(False, '-'))]
+_TOK = ('token', Prim('str', domain=['', 'A1', '12', 'SUM', '1E', 'Sheet1!B2']))
+
+
+def _state(dom):
+    return [('formula', Prim('str', domain=dom)), ('offset', Prim('int', domain=[0, 1, 2, 3])), _TOK] + _FLAGS
+
+
+UNITS.append(Unit(
+    id='C02/tokenizer.getTokens/infix_operator_step', target=TARGET, inputs=_state(['A1+B1', '1*2', 'a&b', '2^3', 'x/y', 'a=b', '1-2', 'a<b', 'a>b']),
+    requires=lambda formula, offset, token, *f: And(
+        _normal_req(['+', '-', '*', '/', '^', '&', '=', '<', '>'], sci_guard=True)(formula, offset, token, *f),
+        # not the first character of a two-character comparator
+        Not(Or(*[And(spec.eq(_char(formula, offset), a), spec.eq(_next(formula, offset), b)) for a, b in (('>', '='), ('<', '='), ('<', '>'))]))),
+    cases=[Case('a single operator character flushes the pending operand (once) and becomes exactly one infix-operator token; one character consumed',
+                lambda *a: True, _op_step(1, 'operator-infix'))],
+    call=_step_call, native_call=_step_native, cross_key=_key, timeout_ms=20000))
+UNITS.append(Unit(
+    id='C02/tokenizer.getTokens/comparator_step', target=TARGET, inputs=_state(['A1>=B1', '1<=2', 'a<>b']),
+    requires=lambda formula, offset, token, *f: And(offset >= 0, offset + 1 < S.length(formula),
+                                                     Or(*[And(spec.eq(_char(formula, offset), a), spec.eq(_next(formula, offset), b)) for a, b in (('>', '='), ('<', '='), ('<', '>'))])),
+    cases=[Case('>= <= <> flush the pending operand and become exactly one logical infix-operator token; two characters consumed',
+                lambda *a: True, _op_step(2, 'operator-infix', 'logical'))],
+    call=_step_call, native_call=_step_native, cross_key=_key, timeout_ms=20000))
+
+
+def _paren_open(formula, offset, token, s, p, r, e, out):
+    if out.kind != 'ret':
+        return False
+    o = out.value
+    em = o['emitted']
+    if len(em) != 1:
+        return False
+    nonempty = S.length(token) > 0
+    tv, tt, ts = em[0]
+    return And(spec.eq(o['offset'], offset + 1), spec.eq(o['token'], ''), ts == 'start',
+               Ite(nonempty, And(spec.eq(tv, token), tt == 'function'), And(spec.eq(tv, ''), tt == 'subexpression')) if is_sym(nonempty)
+               else ((spec.eq(tv, token) and tt == 'function') if nonempty else (tv == '' and tt == 'subexpression')))
+
+
+UNITS.append(Unit(
+    id='C02/tokenizer.getTokens/open_parenthesis_step', target=TARGET, inputs=_state(['SUM(1)', '(1+2)', 'IF(A1,1)', '((x))']),
+    requires=_normal_req(['(']),
+    cases=[Case('"(" after a name opens that function (one start token carrying the name); after nothing it opens a sub-expression; one character consumed',
+                lambda *a: True, _paren_open)],
+    call=_step_call, native_call=_step_native, cross_key=_key, timeout_ms=20000))
+
+
+def _accumulate(formula, offset, token, s, p, r, e, out):
+    if out.kind != 'ret':
+        return False
+    o = out.value
+    return And(spec.eq(o['offset'], offset + 1), spec.eq(o['token'], S.concat(token, _char(formula, offset))), len(o['emitted']) == 0)
+
+
+UNITS.append(Unit(
+    id='C02/tokenizer.getTokens/ordinary_character_step', target=TARGET, inputs=_state(['A1', 'Sheet1!B2', '12.5', 'my_name', '$A$1:B2', 'x.y']),
+    requires=_normal_req(list('ABZabz0189._$:!?\\')),
+    cases=[Case('a letter, digit, ".", "_", "$", ":", "!" joins the pending token; nothing is emitted; one character consumed',
+                lambda *a: True, _accumulate)],
+    call=_step_call, native_call=_step_native, cross_key=_key, timeout_ms=20000))
